@@ -30,6 +30,7 @@ type Clause struct {
 	Text   string
 	Expr   ast.Expr
 	Loop   int // 1-based loop ordinal for loop clauses
+	LoopKey string // header text naming the loop (instead of an ordinal)
 	Param  string
 	File   string
 	Line   int
@@ -49,6 +50,8 @@ type FuncContract struct {
 	Requires []*Clause
 	Ensures  []*Clause
 	Loops    map[int][]*Clause
+	LoopsByText map[string][]*Clause // loops named by header text, resolved per function
+	textResolved bool
 	Params   map[string][]*Clause // param-function contracts: ensures clauses
 	Flags    map[string]bool      // opaque (do not inline, use contract), noinline, ...
 	Lemmas   []*Clause
@@ -63,7 +66,7 @@ var typeInvRe = regexp.MustCompile(`^type-invariant\s+(\w+)\s+(\w+)\s*(\[[A-Z0-9
 var frameRe = regexp.MustCompile(`^postcondition\s+\(\*?(\w+)\)\s*(\[[A-Z0-9,]*\])?\s+([A-Za-z0-9_\-.]+):\s*(.*)$`)
 var defineRe = regexp.MustCompile(`^define\s+(\w+)\(([^)]*)\):\s*(.*)$`)
 var clauseRe = regexp.MustCompile(`^(requires|ensures|lemma|assume|witness|flag)(\[[A-Z0-9,]*\])?\s+([A-Za-z0-9_\-.]+):\s*(.*)$`)
-var loopRe = regexp.MustCompile(`^loop\s+(\d+)\s+(invariant|unroll|exit)(\[[A-Z0-9,]*\])?\s*(?:([A-Za-z0-9_\-.]+):\s*(.*))?$`)
+var loopRe = regexp.MustCompile(`^loop\s+(\d+|@"[^"]+")\s+(invariant|unroll|exit)(\[[A-Z0-9,]*\])?\s*(?:([A-Za-z0-9_\-.]+):\s*(.*))?$`)
 var callsiteRe = regexp.MustCompile(`^callsite\s+(\w+)\s+requires(\[[A-Z0-9,]*\])?\s+([A-Za-z0-9_\-.]+):\s*(.*)$`)
 var paramRe = regexp.MustCompile(`^param\s+(\w+)\s+(ensures|requires)(\[[A-Z0-9,]*\])?\s+([A-Za-z0-9_\-.]+):\s*(.*)$`)
 
@@ -211,9 +214,21 @@ func (w *World) loadContractFile(pkg, file string) error {
 			return fmt.Errorf("%s:%d: clause outside func block", file, i+1)
 		}
 		if m := loopRe.FindStringSubmatch(txt); m != nil {
-			n, _ := strconv.Atoi(m[1])
-			c := &Clause{Kind: m[2], Props: parseProps(m[3]), Label: m[4], Text: m[5], Loop: n, File: file, Line: i + 1}
-			cur.Loops[n] = append(cur.Loops[n], c)
+			c := &Clause{Kind: m[2], Props: parseProps(m[3]), Label: m[4], Text: m[5], File: file, Line: i + 1}
+			if strings.HasPrefix(m[1], "@") {
+				// a loop named by a piece of its header text (`range xs`, `for i < n`): robust against
+				// other loops being added to or removed from the function
+				key := strings.Trim(m[1][1:], `"`)
+				c.LoopKey = key
+				if cur.LoopsByText == nil {
+					cur.LoopsByText = map[string][]*Clause{}
+				}
+				cur.LoopsByText[key] = append(cur.LoopsByText[key], c)
+			} else {
+				n, _ := strconv.Atoi(m[1])
+				c.Loop = n
+				cur.Loops[n] = append(cur.Loops[n], c)
+			}
 			last = c
 			continue
 		}
